@@ -83,7 +83,12 @@ type dirEntry struct {
 	modified bool
 	preFile  bool
 	preData  []byte
-	note     string
+	// image still reachable through a directory handle opened before the directory was renamed away
+	// (the property does not say whether the source names its files by path or through such a handle)
+	viaHandle  bool
+	handleFile bool
+	handleData []byte
+	note       string
 }
 
 type contentHash struct {
@@ -189,14 +194,18 @@ func (d *dirSim) allowed(e *dirEntry) []string {
 	if e.exists {
 		cur = d.outcome(e.isFile, e.data)
 	}
-	if !e.modified {
-		return []string{cur}
+	out := []string{cur}
+	if e.modified {
+		if pre := d.outcome(e.preFile, e.preData); !contains(out, pre) {
+			out = append(out, pre)
+		}
 	}
-	pre := d.outcome(e.preFile, e.preData)
-	if pre == cur {
-		return []string{cur}
+	if e.viaHandle {
+		if h := d.outcome(e.handleFile, e.handleData); !contains(out, h) {
+			out = append(out, h)
+		}
 	}
-	return []string{cur, pre}
+	return out
 }
 
 func contains(xs []string, x string) bool {
@@ -383,13 +392,17 @@ func (tee *c19Tee) applyFaults() {
 			e.data = nb
 			d.t.Logf("before Next#%d: %s %q (%d bytes)", tee.call, c19FaultNames[f.kind], e.name, len(nb))
 		case 5:
-			// the whole directory is renamed away: every entry not yet read has vanished
+			// the whole directory is renamed away: every entry not yet read has vanished from its path (and is
+			// skipped by a source that opens by path) but keeps its content for a source that holds the directory open
 			gone := d.dir + ".gone"
 			if err := os.Rename(d.dir, gone); err != nil {
 				continue
 			}
 			d.dir = gone // the model keeps operating on the renamed tree; the source still holds the old path
 			for _, o := range rest {
+				if o.exists {
+					o.viaHandle, o.handleFile, o.handleData = true, o.isFile, o.data
+				}
 				o.exists, o.isFile, o.data, o.modified = false, false, nil, false
 				o.note = c19FaultNames[5]
 			}
@@ -427,6 +440,9 @@ func (tee *c19Tee) maySkip(e *dirEntry) bool { return contains(tee.d.allowed(e),
 func (tee *c19Tee) bytesFor(e *dirEntry, got string) []byte {
 	if e.exists && tee.d.outcome(e.isFile, e.data) == got {
 		return e.data
+	}
+	if e.viaHandle && tee.d.outcome(e.handleFile, e.handleData) == got {
+		return e.handleData
 	}
 	return e.preData
 }
@@ -645,10 +661,21 @@ func genC19Case(t *sim.T, tier string) *c19Case {
 		c.decoyName = []string{"d1", "lineA", "aXb", "qYx", "backslash", "space", "u-dir", "a"}[k]
 		t.Probe("odd-directory-name")
 	}
-	for i := 0; i < nGood+2; i++ {
+	// the good files of one case are bounded in total size: a very large directory of very large feeds
+	// (300 trips on 45-stop lines in 1100 files) costs the harness itself several GiB and says nothing more
+	// about the source than the same directory cut short
+	budget, total := 6<<20, 0
+	if tier == "thorough" {
+		budget = 40 << 20
+	}
+	for len(c.extra) < 2 {
 		b := gen.MarshalFeed(w.Tick())
-		if i < nGood {
+		if len(c.good) < nGood {
 			c.good = append(c.good, b)
+			if total += len(b); total > budget {
+				nGood = len(c.good)
+				t.Probe("directory-cut-at-byte-budget")
+			}
 		} else {
 			c.extra = append(c.extra, b)
 		}
